@@ -120,7 +120,8 @@ def run(ctx: Ctx) -> Result:
         for verify in (False, True):
             for name, mk, args in (('ts_after', T.make_timestamp_after_lock, (ts,)), ('ts_before', T.make_timestamp_before_lock, (ts,)),
                                    ('ts_between', T.make_timestamp_between_lock, (ts, ts + 5)), ('ts_between', T.make_timestamp_between_lock, (ts + 5, ts)),
-                                   ('ts_between', T.make_timestamp_between_lock, (ts, ts))):
+                                   ('ts_between', T.make_timestamp_between_lock, (ts, ts)), ('ts_between', T.make_timestamp_between_lock, (0, ts)),
+                                   ('ts_between', T.make_timestamp_between_lock, (0, 0))):
                 try:
                     b = mk(*args, verify).bytes.hex()
                 except BaseException as e:
@@ -141,7 +142,7 @@ def run(ctx: Ctx) -> Result:
                               ('T' if t < ts + 5 else 'F') if (t >= ts and slack_ok) else 'ERR', (ts, t, now, 60)))
                 cases.append(('before_lock_verify', cfg, cache, T.make_timestamp_before_lock(ts, True).bytes, 'OK' if t < ts else 'ERR', (ts, t, now, 60)))
                 # windows of every orientation: begin <= t < end is empty when end <= begin
-                for b_, e_ in ((ts + 5, ts), (ts, ts), (ts + 1, ts - 1 if ts > 0 else 0), (ts - 3 if ts >= 3 else 0, ts + 2)):
+                for b_, e_ in ((ts + 5, ts), (ts, ts), (ts + 1, ts - 1 if ts > 0 else 0), (ts - 3 if ts >= 3 else 0, ts + 2), (0, ts), (0, ts + 2), (1, ts + 1)):
                     try: lk = T.make_timestamp_between_lock(b_, e_).bytes
                     except BaseException: continue
                     cases.append(('between_lock', cfg, cache, lk, ('T' if t < e_ else 'F') if (t >= b_ and slack_ok) else 'ERR', (b_, t, now, 60)))
